@@ -177,7 +177,6 @@ func init() {
 			"sites executed during package initialisation run before the explorer exists and are listed, not explored",
 		},
 		BudgetQuick: 280 * time.Second, BudgetThorough: 1500 * time.Second,
-		CaseTimeout: 900 * time.Second,
 		Prepare: func(p *Parent) error {
 			repl, sites, err := RewriteMapRanges(p.Env.Repo, filepath.Join(p.Shared, "maprewrite"))
 			if err != nil {
@@ -250,55 +249,64 @@ func init() {
 					c.Sample(map[string]any{"configuration": cfg.id, "exit": base.exit, "choice_points": len(basePoints), "sites_with_two_or_more_entries": sitesSeen})
 				})
 				for i := range basePoints {
-					i := i
-					w.Case(fmt.Sprintf("order/%s/point%d", cfg.id, i), func(c *C) {
-						var explore func(plan map[int]int, from int, points []c08point, depth int)
-						explore = func(plan map[int]int, from int, points []c08point, depth int) {
-							for pi := from; pi < len(points); pi++ {
-								if depth == 0 && pi != i {
-									continue
-								}
-								for alt := 1; alt < vmap.NumAlternatives(points[pi].n); alt++ {
-									np := map[int]int{}
-									for k, v := range plan {
-										np[k] = v
+					nAlt := 1
+					if maxDev > 1 {
+						nAlt = vmap.NumAlternatives(basePoints[i].n) - 1 // thorough: one case per (point, first alternative)
+					}
+					for firstAlt := 1; firstAlt <= nAlt; firstAlt++ {
+						i, firstAlt := i, firstAlt
+						w.Case(fmt.Sprintf("order/%s/point%d/alt%d", cfg.id, i, firstAlt), func(c *C) {
+							var explore func(plan map[int]int, from int, points []c08point, depth int)
+							explore = func(plan map[int]int, from int, points []c08point, depth int) {
+								for pi := from; pi < len(points); pi++ {
+									if depth == 0 && pi != i {
+										continue
 									}
-									np[pi] = alt
-									obs, pts := c08run(w, cfg, np)
-									c.Distinct("states", cfg.id+"|"+fmt.Sprint(np))
-									c.Distinct("nontrivial", cfg.id+"|"+fmt.Sprint(np))
-									c.Add("transitions", int64(len(pts)))
-									c.Count("executions")
-									c.Count("evaluations_extra")
-									c.Distinct("outcomes", cfg.id+"|"+obs.key())
-									if obs.key() != base.key() {
-										// replay twice before believing it
-										again, _ := c08run(w, cfg, np)
-										if again.key() != obs.key() {
-											panic("replay of a choice plan gave a different observation: harness nondeterminism")
+									for alt := 1; alt < vmap.NumAlternatives(points[pi].n); alt++ {
+										if depth == 0 && maxDev > 1 && alt != firstAlt {
+											continue
 										}
-										what := "printed report"
-										d := firstDiff(base.out, obs.out)
-										if obs.output != base.output {
-											what, d = "-o bytes", firstDiff(base.output, obs.output)
+										np := map[int]int{}
+										for k, v := range plan {
+											np[k] = v
 										}
-										if obs.exit != base.exit {
-											what = "exit status"
+										np[pi] = alt
+										obs, pts := c08run(w, cfg, np)
+										c.Distinct("states", cfg.id+"|"+fmt.Sprint(np))
+										c.Distinct("nontrivial", cfg.id+"|"+fmt.Sprint(np))
+										c.Add("transitions", int64(len(pts)))
+										c.Count("executions")
+										c.Count("evaluations_extra")
+										c.Distinct("outcomes", cfg.id+"|"+obs.key())
+										if obs.key() != base.key() {
+											// replay twice before believing it
+											again, _ := c08run(w, cfg, np)
+											if again.key() != obs.key() {
+												panic("replay of a choice plan gave a different observation: harness nondeterminism")
+											}
+											what := "printed report"
+											d := firstDiff(base.out, obs.out)
+											if obs.output != base.output {
+												what, d = "-o bytes", firstDiff(base.output, obs.output)
+											}
+											if obs.exit != base.exit {
+												what = "exit status"
+											}
+											c.Violation("order-dependent:"+points[pi].site, fmt.Sprintf("%s depends on the iteration order of the map ranged at %s (configuration %s, permutation %d of %d entries): %s", what, points[pi].site, cfg.id, alt, points[pi].n, d),
+												FilesMap(cfg.files()), map[string]any{"plan": fmt.Sprint(np), "args": cfg.args})
+										} else {
+											c.Count("traces")
 										}
-										c.Violation("order-dependent:"+points[pi].site, fmt.Sprintf("%s depends on the iteration order of the map ranged at %s (configuration %s, permutation %d of %d entries): %s", what, points[pi].site, cfg.id, alt, points[pi].n, d),
-											FilesMap(cfg.files()), map[string]any{"plan": fmt.Sprint(np), "args": cfg.args})
-									} else {
-										c.Count("traces")
-									}
-									if depth+1 < maxDev {
-										explore(np, pi+1, pts, depth+1)
+										if depth+1 < maxDev {
+											explore(np, pi+1, pts, depth+1)
+										}
 									}
 								}
 							}
-						}
-						c.Distinct("nontrivial", c.ID)
-						explore(map[int]int{}, 0, basePoints, 0)
-					})
+							c.Distinct("nontrivial", c.ID)
+							explore(map[int]int{}, 0, basePoints, 0)
+						})
+					}
 				}
 			}
 			// key permutations
